@@ -225,14 +225,18 @@ func (p *Proxy) Serve(l net.Listener) error {
 			tconn.SetKeepAlivePeriod(3 * time.Minute)
 		}
 
+		// The connection is registered before its handler goroutine is started: once Accept has
+		// returned it, Close must not return until the handler has closed it.
+		p.connsMu.Lock()
+		p.conns.Add(1)
+		p.connsMu.Unlock()
 		go p.handleLoop(conn)
 	}
 }
 
+// handleLoop serves one accepted connection. The caller has registered the connection with
+// p.conns (see Serve); handleLoop releases it when the connection has been closed.
 func (p *Proxy) handleLoop(conn net.Conn) {
-	p.connsMu.Lock()
-	p.conns.Add(1)
-	p.connsMu.Unlock()
 	defer p.conns.Done()
 	defer conn.Close()
 	if p.Closing() {
